@@ -82,7 +82,7 @@ CHECKS = {
          'line in order (premise: no < in the style strings and the escaped '
          'URL); the table of line starts; cell i of a region over lines '
          'b..e-1 gets number b+i and the numbers never run out. '
-         'Premise not derived: the last highlight ends in front of the start '
+         'Premise not derived: every highlight ends at or in front of the start '
          'of line e. Which lines a region covers (context arithmetic) and the '
          'no-match branch are part of the byte-exact executable model and are '
          'decided by the correspondence run and the HTML-parsing oracle',
